@@ -99,7 +99,7 @@ def divergence(e, clause, events):
         cls = 'xml-namespace-attribute:%s' % clause
     elif e['name'] == 'name' or '"name"' in flat:
         cls = 'name-collides-with-python-property:%s' % clause
-    elif 'str:a, ' in flat:
+    elif 'str:a, ' in flat or (e['ctype'] == 'measure' and ('"text"' in flat)):
         cls = 'pattern-matched-without-whitespace-collapse:%s' % clause
     elif '2023-02-30' in flat:
         cls = 'date-calendar-not-checked:%s' % clause
